@@ -121,7 +121,21 @@ def check_virtual_children(prog, report):
     report.check(oki, 'R-children', 'DummyElement intervals', init.where(),
                  'time/space interval from the corners 0 and 2',
                  construct='DummyElement.__init__: intervals')
-    report.floor('R-children', 8)
+    okh = a.get('self.h_t') in (
+        'float(abs(self.vertices[2].t-self.vertices[0].t))',
+        'abs(self.vertices[2].t-self.vertices[0].t)',
+        'float(self.vertices[2].t-self.vertices[0].t)') and a.get(
+            'self.h_x') in (
+                'float(abs(self.vertices[2].x-self.vertices[0].x))',
+                'abs(self.vertices[2].x-self.vertices[0].x)',
+                'float(self.vertices[2].x-self.vertices[0].x)')
+    report.check(okh, 'R-children', 'DummyElement sizes', init.where(),
+                 'h_t and h_x are the lengths of the time and of the '
+                 '(arc-length) parameter interval, as for real elements; '
+                 'found h_t=%s h_x=%s' % (a.get('self.h_t'),
+                                          a.get('self.h_x')),
+                 construct='DummyElement.__init__: h_t / h_x')
+    report.floor('R-children', 9)
     return rects
 
 
